@@ -355,6 +355,193 @@ def rule_I2(ctx):
         ctx.analysed(f)
 
 
+# ---------------------------------------------------------------------------------------------- I3
+# The densities read the tree's cached vectors (root log_r, node log_p / log_r, a data point's grid): an
+# array-valued attribute read hands out the live array, and so does a basic slice of it.  Evaluating a density
+# must not write into such a borrowed array - not in the density function and not in a helper it hands the array to.
+_ARRAY_ATTRS = {"log_r", "log_p", "value"}
+_ALIASING_CALLS = ("ascontiguousarray", "asarray", "reshape", "ravel", "squeeze", "transpose", "view", "atleast_2d", "atleast_1d")
+
+
+def _array_attrs(prog):
+    """Names whose attribute read yields a live array: the payload fields and every property returning one."""
+    names = set(_ARRAY_ATTRS)
+    changed = True
+    while changed:
+        changed = False
+        for ci in prog.classes.values():
+            for pname, kinds in ci.properties.items():
+                g = kinds.get("getter")
+                if g is None or pname in names:
+                    continue
+                for n in ast.walk(g.node):
+                    if isinstance(n, ast.Return) and n.value is not None:
+                        v = n.value
+                        while isinstance(v, ast.Subscript):
+                            v = v.value
+                        if isinstance(v, ast.Attribute) and v.attr in names:
+                            names.add(pname)
+                            changed = True
+    return names
+
+
+def _borrowed_expr(v, cur, attrs):
+    """Is `v` (an expression) a live view of a cached array, given the names in `cur` that already are?"""
+    if isinstance(v, ast.Name):
+        return v.id in cur
+    if isinstance(v, ast.Subscript):
+        return _borrowed_expr(v.value, cur, attrs)
+    if isinstance(v, ast.Attribute):
+        if v.attr == "T":
+            return _borrowed_expr(v.value, cur, attrs)
+        return v.attr in attrs
+    if isinstance(v, ast.Call):
+        last = call_name(v).split(".")[-1]
+        if last in _ALIASING_CALLS:
+            if isinstance(v.func, ast.Attribute) and not call_name(v).startswith(("np.", "numpy.")):
+                return _borrowed_expr(v.func.value, cur, attrs)
+            return bool(v.args) and _borrowed_expr(v.args[0], cur, attrs)
+    if isinstance(v, ast.IfExp):
+        return _borrowed_expr(v.body, cur, attrs) or _borrowed_expr(v.orelse, cur, attrs)
+    return False
+
+
+def _borrowed_writes(prog, f, seeds, attrs, depth, seen):
+    """In-place writes in `f` (and the helpers it hands arrays to) that reach a borrowed array.
+
+    Statement-ordered walk: a name is borrowed after `name = <borrowed expression>` and fresh after any other
+    rebinding; the two arms of a branch are joined by union (borrowed on either arm), a loop body is walked twice."""
+    from .C14 import _inplace_targets
+
+    bad = []
+    key = (f.qualname, tuple(sorted(seeds)))
+    if key in seen:
+        return bad
+    seen.add(key)
+
+    def simple(node, cur):
+        for nm, n, how, rebinding in _inplace_targets(node):
+            if nm in cur:
+                bad.append((f, n, "%s on `%s`, a live view of one of the tree's cached arrays" % (how, nm)))
+        for n in ast.walk(node):
+            tg = []
+            if isinstance(n, ast.AugAssign):
+                tg = [n.target]
+            elif isinstance(n, ast.Assign):
+                tg = [t for t in n.targets if isinstance(t, ast.Subscript)]
+            for t in tg:
+                if isinstance(t, ast.Name):
+                    continue
+                inner = t.value if isinstance(t, ast.Subscript) else t
+                if isinstance(n, ast.AugAssign) and isinstance(t, ast.Attribute) and t.attr in attrs:
+                    bad.append((f, n, "augmented assignment to the cached array `%s`" % u(t)))
+                elif not isinstance(inner, ast.Name) and _borrowed_expr(inner, cur, attrs):
+                    bad.append((f, n, "store into `%s`, a live view of one of the tree's cached arrays" % u(t)))
+        if depth > 0:
+            for c in ast.walk(node):
+                if not isinstance(c, ast.Call):
+                    continue
+                g = None
+                shift = 0
+                if isinstance(c.func, ast.Name):
+                    g = prog.resolve_function(c.func.id, f.module)
+                elif isinstance(c.func, ast.Attribute) and isinstance(c.func.value, ast.Name) and c.func.value.id in ("self", "cls") and f.cls is not None:
+                    g = prog.method(f.cls, c.func.attr)
+                    if g is not None and "staticmethod" not in g.decorators:
+                        shift = 1
+                if g is None:
+                    continue
+                params = list(g.params)[shift:]
+                sub = set()
+                for i, a in enumerate(c.args):
+                    if i < len(params) and not isinstance(a, ast.Starred) and _borrowed_expr(a, cur, attrs):
+                        sub.add(params[i])
+                for kw in c.keywords:
+                    if kw.arg in params and _borrowed_expr(kw.value, cur, attrs):
+                        sub.add(kw.arg)
+                if sub:
+                    bad.extend(_borrowed_writes(prog, g, sub, attrs, depth - 1, seen))
+
+    def bind(target, value, cur):
+        if isinstance(target, ast.Name):
+            if value is not None and _borrowed_expr(value, cur, attrs):
+                cur.add(target.id)
+            else:
+                cur.discard(target.id)
+        elif isinstance(target, (ast.Tuple, ast.List)):
+            vals = value.elts if isinstance(value, (ast.Tuple, ast.List)) and len(value.elts) == len(target.elts) else [None] * len(target.elts)
+            for t, v in zip(target.elts, vals):
+                bind(t, v, cur)
+
+    def block(stmts, cur):
+        for s in stmts:
+            if isinstance(s, ast.If):
+                simple(s.test, cur)
+                a, b = set(cur), set(cur)
+                block(s.body, a)
+                block(s.orelse, b)
+                cur.clear()
+                cur.update(a | b)
+            elif isinstance(s, (ast.For, ast.While)):
+                for _ in range(2):
+                    if isinstance(s, ast.For):
+                        simple(s.iter, cur)
+                        it = s.iter
+                        # rows of a borrowed 2-d array are views; enumerate/zip hand the rows on
+                        if isinstance(it, ast.Call) and call_name(it) in ("enumerate", "zip", "reversed") and isinstance(s.target, ast.Tuple):
+                            offs = 1 if call_name(it) == "enumerate" else 0
+                            for k, a in enumerate(it.args):
+                                if k + offs < len(s.target.elts):
+                                    bind(s.target.elts[k + offs], a, cur)
+                        else:
+                            bind(s.target, it, cur)
+                    else:
+                        simple(s.test, cur)
+                    block(s.body, cur)
+                block(s.orelse, cur)
+            elif isinstance(s, ast.With):
+                for it in s.items:
+                    simple(it.context_expr, cur)
+                block(s.body, cur)
+            elif isinstance(s, ast.Try):
+                block(s.body, cur)
+                for h in s.handlers:
+                    block(h.body, cur)
+                block(s.orelse, cur)
+                block(s.finalbody, cur)
+            elif isinstance(s, (ast.FunctionDef, ast.AsyncFunctionDef, ast.ClassDef)):
+                continue
+            else:
+                simple(s, cur)
+                if isinstance(s, ast.Assign):
+                    for t in s.targets:
+                        bind(t, s.value, cur)
+                elif isinstance(s, ast.AnnAssign) and s.value is not None:
+                    bind(s.target, s.value, cur)
+
+    block(f.node.body, set(seeds))
+    out, ids = [], set()
+    for b in bad:
+        if id(b[1]) not in ids:
+            ids.add(id(b[1]))
+            out.append(b)
+    return out
+
+
+def rule_I3(ctx):
+    prog = ctx.prog
+    ctx.rule("I3", "evaluating a density never writes into the tree's cached vectors: no in-place operation on an array-valued attribute of the tree / node / data point, on a view of it, or in a helper it is handed to", 10)
+    attrs = _array_attrs(prog)
+    if "data_log_likelihood" not in attrs and not any(a not in _ARRAY_ATTRS for a in attrs):
+        raise AnalysisError("I3: no property of the tree returns a cached array (log_r / log_p / value); the rule would be vacuous")
+    for name in DENSITY_FUNCS:
+        f = prog.fn(name)
+        seen = set()
+        bad = _borrowed_writes(prog, f, set(), attrs, 3, seen)
+        ctx.check(not bad, "I3", name + " leaves the cached vectors it reads untouched", (bad[0][0].where(bad[0][1]) if bad else f.where()), "; ".join("%s: %s (%s)" % (g.qualname, w, u(n)[:60]) for g, n, w in bad), construct=(bad[0][0].qualname if bad else f.qualname), stmt="in-place write to a borrowed array")
+        ctx.analysed(f)
+
+
 def run(ctx):
     ctx.assume("the specification table is the property statement's formula; that it is 'the' FS-CRP is not decided")
     ctx.assume("rustworkx dfs_search visits every vertex reachable from the root and calls discover/tree_edge/finish as documented")
@@ -363,6 +550,7 @@ def run(ctx):
     ctx.soft(rule_T3)
     ctx.soft(rule_I1)
     ctx.soft(rule_I2)
+    ctx.soft(rule_I3)
     # the tree queries the densities read (number of clones, top-level clones, descendants, per-clone data,
     # outliers, multiplicity, root likelihood vector) against the reference semantics of the editor
     from ._treespec import rule_TS
@@ -403,6 +591,9 @@ SELFTEST = [
     {"name": "T3-fused-misses-outlier-marginal", "kind": "break", "rule": "T3", "file": _D, "old": "            log_p += data_point.outlier_marginal_prob\n            log_p_one += data_point.outlier_marginal_prob\n", "new": "            log_p += data_point.outlier_marginal_prob\n"},
     {"name": "T3-holder-swaps-pair", "kind": "break", "rule": "T3", "file": "phyclone/smc/swarm/tree_holder.py", "old": "self.log_p, self.log_p_one = self._tree_dist.compute_both_log_p_and_log_p_one(tree)", "new": "self.log_p_one, self.log_p = self._tree_dist.compute_both_log_p_and_log_p_one(tree)"},
     {"name": "T3-fused-prior-swapped-helpers", "kind": "break", "rule": "T3", "file": _D, "old": "        log_p = self.log_p(tree, tree_node_data, log_p, num_nodes, multiplicity)\n\n        log_p_one = self.log_p_one(tree, tree_node_data, log_p_one, num_nodes, multiplicity)", "new": "        log_p = self.log_p_one(tree, tree_node_data, log_p, num_nodes, multiplicity)\n\n        log_p_one = self.log_p(tree, tree_node_data, log_p_one, num_nodes, multiplicity)"},
+    {"name": "I3-fixed-root-shifts-live-root-vector", "kind": "break", "rule": "I3", "file": _D, "old": "            for i in range(tree.grid_size[0]):\n                log_p += tree.data_log_likelihood[i, -1]\n\n        for data_point in tree.outliers:\n            log_p += data_point.outlier_marginal_prob\n\n        return log_p\n\n    def compute_both", "new": "            ll = tree.data_log_likelihood\n            ll -= 0.0\n            for i in range(tree.grid_size[0]):\n                log_p += ll[i, -1]\n\n        for data_point in tree.outliers:\n            log_p += data_point.outlier_marginal_prob\n\n        return log_p\n\n    def compute_both"},
+    {"name": "I3-row-view-normalised-in-place", "kind": "break", "rule": "I3", "file": _D, "old": "            for i in range(tree.grid_size[0]):\n                log_p += log_sum_exp(tree.data_log_likelihood[i, :])\n\n        for data_point in tree.outliers:\n            log_p += data_point.outlier_marginal_prob\n\n        return log_p\n\n    def log_p_one", "new": "            for i in range(tree.grid_size[0]):\n                row = tree.data_log_likelihood[i, :]\n                np.subtract(row, 0.0, out=row)\n                log_p += log_sum_exp(row)\n\n        for data_point in tree.outliers:\n            log_p += data_point.outlier_marginal_prob\n\n        return log_p\n\n    def log_p_one"},
+    {"name": "benign-row-copied-before-shift", "kind": "benign", "file": _D, "old": "            for i in range(tree.grid_size[0]):\n                log_p += log_sum_exp(tree.data_log_likelihood[i, :])\n\n        for data_point in tree.outliers:\n            log_p += data_point.outlier_marginal_prob\n\n        return log_p\n\n    def log_p_one", "new": "            for i in range(tree.grid_size[0]):\n                row = tree.data_log_likelihood[i, :]\n                row = row + 0.0\n                row -= 0.0\n                log_p += log_sum_exp(row)\n\n        for data_point in tree.outliers:\n            log_p += data_point.outlier_marginal_prob\n\n        return log_p\n\n    def log_p_one"},
     {"name": "I1-hash-without-outliers", "kind": "break", "rule": "I1", "file": _T, "old": "        return hash((self.get_clades(), frozenset(self.outliers)))", "new": "        return hash(self.get_clades())"},
     {"name": "I1-eq-ignores-other-outliers", "kind": "break", "rule": "I1", "file": _T, "old": "other_key = (other.get_clades(), frozenset(other.outliers))", "new": "other_key = (other.get_clades(), frozenset(self.outliers))"},
     {"name": "I1-visitor-no-merge-into-parent", "kind": "break", "rule": "I1", "file": _V, "old": "            self.dict_of_sets[parent_idx].update(datalist)\n            self.clades.add(frozenset(datalist))", "new": "            self.clades.add(frozenset(datalist))"},
